@@ -323,6 +323,46 @@ func clientWire(name string, plan [][]int, bound int) *vx.Scenario {
 	return sc
 }
 
+// clientWireConnecting: one goroutine emits its events in a row while the socket is still connecting (the
+// first ones are buffered, the CONNECT reply arrives in between, the later ones are sent directly). The
+// wire must still show them in program order.
+func clientWireConnecting(name string, plan [][]int, bound int) *vx.Scenario {
+	sc := &vx.Scenario{Name: name, Bound: bound, Horizon: 10 * time.Second}
+	sc.Body = func(e *vsched.Exec) func() vx.Result {
+		srv, mgr, link := vrig.NewSioPair(nil, nil)
+		srv.OnConnection(func(s sio.ServerSocket) {})
+		sock := mgr.Socket("/", nil)
+		sock.Connect()
+		for em := range plan {
+			em := em
+			vsched.GoQuiet(fmt.Sprintf("emitter%d", em), func() {
+				for seq, natt := range plan[em] {
+					sock.Emit("e", emitArgs(em, seq, natt)...)
+				}
+			})
+		}
+		return func() vx.Result {
+			var r vx.Result
+			frames, err := postsToFrames(link.Posts)
+			if err != nil {
+				r.Violate("client wire: POST body not decodable", "%v", err)
+				return r
+			}
+			// the CONNECT packet ("0", no event) is skipped by the reference decoder's caller
+			var ev []wireFrame
+			for _, f := range frames {
+				if !f.binary && len(f.data) > 0 && f.data[0] == '0' {
+					continue
+				}
+				ev = append(ev, f)
+			}
+			judgeWire(&r, "client (emitting while it connects)", ev, plan)
+			return r
+		}
+	}
+	return sc
+}
+
 // ---- (b) application level: handler-entry order
 
 func orderKey(side string, sites []string) string {
@@ -464,6 +504,8 @@ func scenarios(tier string) []*vx.Scenario {
 		serverWirePolling("server-wire-polling/2x2-mixed-no-gaps", [][]int{{2, 0}, {0, 1}}, 0, 0, bw-2),
 		clientWire("client-wire/2x1-binary", [][]int{{1}, {2}}, bw-2),
 		clientWire("client-wire/2x2-mixed", [][]int{{0, 2}, {1, 0}}, bw-2),
+		clientWireConnecting("client-wire-connecting/1x3", [][]int{{0, 1, 0}}, bw-2),
+		clientWireConnecting("client-wire-connecting/2x2", [][]int{{0, 1}, {1, 0}}, bw-2),
 		serverApp("server-app/2-separate-frames", 2, false, ba),
 		serverApp("server-app/3-one-payload", 3, true, ba),
 		clientApp("client-app/2", 2, ba),
